@@ -2,7 +2,7 @@ SPECIFICATION Spec
 CONSTANTS
   Shapes <- Q_Shapes2
   WinStarts = {0, 1}
-  WinExtents = {1, 2, 3}
+  WinExtents = {1, 3}
   IntVals <- Q2_Ints
   SliceVals <- Q2_Slice
   StepVals = {2}
